@@ -3,6 +3,8 @@ use vcommon::Args;
 
 mod c01;
 mod c02;
+mod c05;
+mod pool;
 mod c06;
 mod c07;
 mod c22;
@@ -17,6 +19,7 @@ fn main() {
     match args.stage.as_str() {
         "c01" => c01::run(&args),
         "c02" => c02::run(&args),
+        "c05" => c05::run(&args),
         "c06" => c06::run(&args),
         "c07" => c07::run(&args),
         "c22" => c22::run(&args),
